@@ -396,15 +396,16 @@ def gen_special(seed, njobs, engines):
     """directories with one special ingredient each (dirJob.mode): 'big' a value above 1 MiB shortly before every kill
     (the wal encoder's 1 MiB buffer), 'tear' a torn record behind the WAL's tail after every kill (wal.Repair on a WAL that
     has rolled over to further segments), 'ttl' SETEX + INCR + INCRBY shortly before the kill and the restart after the
-    expire time (a replay judges expiry by the entry's timestamp)"""
+    expire time (a replay judges expiry by the entry's timestamp), 'purge' entries of a few KiB and the WAL purger ticking
+    every 50 ms while the node serves (segments released by wal.ReleaseLockTo are removed during the life, not only at the next start)"""
     rnd = __import__("random").Random(seed + 83)
-    modes = ["big", "tear", "ttl"]
+    modes = ["big", "tear", "ttl", "purge"]
     jobs = []
     for d in range(njobs):
         specs = ["X:%d:%d" % (rnd.randint(25, 60), rnd.randint(0, 7)), "X:%d:%d" % (rnd.randint(14, 40), rnd.randint(0, 7)),
                  "X:%d:%d" % (rnd.randint(9, 30), rnd.randint(0, 7))]
         jobs.append(dict(seed=rnd.randrange(1 << 40), engine=engines[d % len(engines)], optfsync=(d % 2 == 0), ops_max=OPS_MAX, specs=specs,
-                         mode=modes[(d + seed) % 3] if njobs < 6 else modes[d % 3]))
+                         mode=modes[d % 4]))
     return jobs
 
 
@@ -703,7 +704,7 @@ def run(ctx):
             batches.append(("follower", gen_follower(ctx.seed, 6, ["pebble", "rocksdb", "mem"], cover_once=True)))
             batches.append(("sparse", gen_sparse_snapshots(ctx.seed, 3, ["pebble", "rocksdb", "mem"])
                             + gen_consecutive(ctx.seed, 3, ["rocksdb", "pebble", "mem"])
-                            + gen_special(ctx.seed, 3, ["pebble", "rocksdb", "mem"])))
+                            + gen_special(ctx.seed, 4, ["pebble", "rocksdb", "mem"])))
             batches.append(("fresh", gen_jobs(ctx.seed, 12, 4, ["pebble", "rocksdb", "mem"], known, cover_once=True)))
         else:
             batches.append(("fresh", gen_jobs(ctx.seed, 320, 9, engines, known)))
